@@ -5,4 +5,6 @@ CHECK_DEADLOCK FALSE
 CONSTANTS
   UnlockFirst = FALSE
   WithMap = FALSE
+  ClearOnHeld = FALSE
+  EmitAllUpTo = 100
   KeepHist = FALSE
